@@ -359,6 +359,7 @@ inline std::vector<double> alphabet(const std::string &name) {
     if (name.size() >= 4 && (name[0] == 'Q' || name[0] == 'T') && name.find('x') != std::string::npos) { int k = atoi(name.c_str() + 1), cnt = atoi(name.c_str() + name.find('x') + 1); return {(name[0] == 'Q' ? -2000.0 : -3000.0) - k, (double) cnt}; }
     if (name.size() >= 4 && name[0] == 'R' && name.find('x') != std::string::npos) { int k = atoi(name.c_str() + 1), cnt = atoi(name.c_str() + name.find('x') + 1); return {-1000.0 - k, (double) cnt}; }
     if (name == "H3") return {1, 1000, 2000};
+    if (name == "L3") return {1, 3, 1000};              // light / a little heavier / heavy
     if (name == "H4") return {1, 3, 1000, 2000};        // two light values (a chord heavier than the path around it), heavy, heavier
     if (name == "H5") return {1, 2, 3, 1000, 2000};           // light / heavy / heavier (amplified gadgets for the approximation bound)
     if (name == "H2") return {1, 100};                 // extreme ratio: adversarial for approximation guarantees
